@@ -259,7 +259,7 @@ def eval_clause(eng, text, vars, globs=None, old_vars=None, entry_vars=None, ext
         try:
             import inspect
 
-            if len(inspect.signature(text).parameters) >= 4:  # (E, vars, old, entry): entry = state at loop entry
+            if "entry" in inspect.signature(text).parameters:  # (E, vars, old, entry): entry = state at loop entry
                 return eng.truth(text(eng, dict(vars), old_vars, entry_vars))
             return eng.truth(text(eng, dict(vars), old_vars))
         finally:
